@@ -73,4 +73,8 @@ def main(argv=None) -> int:
 
 
 if __name__ == "__main__":
-    sys.exit(main())
+    rc_ = main()
+    # leave without running finalisers: generators of the interpreted program that were never exhausted own helper threads
+    sys.stdout.flush()
+    sys.stderr.flush()
+    os._exit(rc_)
